@@ -152,6 +152,14 @@ def abHashParts (H : Bytes → Bytes) (b : Block) : List Part := [
   ⟨"Difficulty", "common.Uint64ToBytes(_)", u64 b.body.difficulty⟩,
   ⟨"Nonce", "_.Data[:]", b.body.nonce⟩]
 
+/-- width of the account-block pre-image without the amount part -/
+def abPreimageRestWidth : Nat :=
+  8 + 8 + 8 + Gen.HashSize + 8 + (Gen.HashSize + 8) + Gen.AddressSize + Gen.AddressSize +
+    Gen.ZtsSize + Gen.HashSize + Gen.HashSize + Gen.HashSize + 8 + 8 + Gen.NonceSize
+
+/-- width of the account-block pre-image when the amount fits the pad width -/
+def abPreimageWidth : Nat := abPreimageRestWidth + Gen.BigIntPadWidth
+
 /-- the byte string `(ab *AccountBlock) ComputeHash()` hashes -/
 def abPreimage (H : Bytes → Bytes) (b : Block) : Bytes := joinParts (abHashParts H b)
 
@@ -236,5 +244,58 @@ structure Momentum.WF (m : Momentum) : Prop where
   timestampUnix : m.timestampUnix < two64
   content : ∀ h ∈ m.content, h.WF
   changesHash : m.changesHash.length = Gen.HashSize
+
+/-! ## what "equal covered fields" and "hash-consistent" mean, recursively through descendants -/
+
+/-- erase the fields the hash does not cover (`BasePlasma`, `TotalPlasma`, `ChangesHash`, `PublicKey`,
+    `Signature`); `Hash` is kept: it is what is compared -/
+def ABody.strip (b : ABody) : ABody :=
+  { b with basePlasma := 0, totalPlasma := 0, changesHash := [], publicKey := [], signature := [] }
+
+mutual
+def Block.strip : Block → Block
+  | ⟨body, ds⟩ => ⟨body.strip, stripList ds⟩
+def stripList : List Block → List Block
+  | [] => []
+  | d :: ds => d.strip :: stripList ds
+end
+
+mutual
+/-- the `Hash` field of the block and of every descendant is the computed hash -/
+def Block.Consistent (H : Bytes → Bytes) : Block → Prop
+  | ⟨body, ds⟩ => body.hash = abComputeHash H ⟨body, ds⟩ ∧ ConsistentList H ds
+def ConsistentList (H : Bytes → Bytes) : List Block → Prop
+  | [] => True
+  | d :: ds => d.Consistent H ∧ ConsistentList H ds
+end
+
+mutual
+/-- Go type widths at every level, and amounts that are not negative (a negative amount is rejected by
+    verifier/account_block.go `amounts()`; `BigIntToBytes` drops the sign) -/
+def Block.DeepWF : Block → Prop
+  | ⟨body, ds⟩ => body.WF ∧ 0 ≤ body.amount ∧ DeepWFList ds
+def DeepWFList : List Block → Prop
+  | [] => True
+  | d :: ds => d.DeepWF ∧ DeepWFList ds
+end
+
+mutual
+/-- every byte string handed to the hash function while the hashes of a block and its descendants are
+    computed: the inputs on which the hash function has to be collision-free -/
+def Block.hashInputs (H : Bytes → Bytes) : Block → List Bytes
+  | ⟨body, ds⟩ => abPreimage H ⟨body, ds⟩ :: body.data :: descSource ds :: hashInputsList H ds
+def hashInputsList (H : Bytes → Bytes) : List Block → List Bytes
+  | [] => []
+  | d :: ds => d.hashInputs H ++ hashInputsList H ds
+end
+
+def Momentum.hashInputs (H : Bytes → Bytes) (m : Momentum) : List Bytes :=
+  [momentumPreimage H m, m.data, contentBytes m.content]
+
+/-- erase what the momentum hash does not cover (`PublicKey`, `Signature`; `Hash` is what is compared) -/
+def Momentum.strip (m : Momentum) : Momentum := { m with publicKey := [], signature := [] }
+
+/-- `H` has no collision among the inputs in `S` -/
+def InjOn (H : Bytes → Bytes) (S : Bytes → Prop) : Prop := ∀ x y, S x → S y → H x = H y → x = y
 
 end ZV.Codec
